@@ -159,6 +159,24 @@ def wave3():
             case("foo", [fn("g3", {"a": Z, "b": ZAB}, ZA)], "w3:package chain, return"),
             case("zed", [fn("f1", {"a": L(ZAB), "b": ZA}, D(Z, ZAB))], "w3:package chain, nested"),
             case("pkg", [fn("g3", {"a": P, "b": B, "c": ZA}, Z)], "w3:two packages")]
+    # --- functions WITHOUT parameters: the return (and yield) annotation is the only thing that can ask for an import or
+    #     put a module into the prefixes to strip; as the only user of that module in the stub ---
+    A_, UIN = C("utils", "A"), C("utils", "utils.Inner")
+    out += [
+        case("foo", [fn("z0", {}, QUX)], "w5:no parameters, imported class"),
+        case("foo", [fn("z0", {}, BAZ)], "w5:no parameters, own class"),
+        case("barfoo", [fn("z0", {}, FOOIN)], "w5:no parameters, own nested class"),
+        case("utils", [fn("z0", {}, UIN)], "w5:no parameters, class named like own module"),
+        case("foo", [fn("z0", {}, None, ZAB)], "w5:no parameters, yield imported class"),
+        case("foo", [fn("z0", {}, A_, BAZ)], "w5:no parameters, generator"),
+        case("foo", [fn("z0", {}, DD(STR, L(INT)))], "w5:no parameters, typing only"),
+        case("foo", [fn("z0", {}, U(B, NONE))], "w5:no parameters, Optional imported class"),
+        case("foo", [fn("z0", {}, TD({"x": INT}))], "w5:no parameters, TypedDict"),
+        case("foo", [fn("z0", {}, ENT_INT)], "w5:no parameters, nested generic alias"),
+        case("foo", [fn("z0", {}, RLOCK), fn("f0", {"a": INT})], "w5:no parameters, next to another function"),
+        case("foo", [fn("z0", {}, BAZ), fn("f0", {"a": OTHER})], "w5:no parameters, own class, next to another function"),
+        case("zed.a", [fn("z0", {}, T(Z, ZA, ZAB))], "w5:no parameters, package chain"),
+    ]
     # --- every typing name at every kind of position, as the ONLY annotation of the module stub: whatever the text uses
     #     must be imported because of this one position (imports are merged module-wide, so any second user masks a miss) ---
     kinds = {"List": L(INT), "Set": S(INT), "Dict": D(STR, INT), "DefaultDict": DD(STR, INT), "Tuple": T(INT, STR), "Tuple0": T(),
@@ -168,6 +186,7 @@ def wave3():
         positions = {
             "param": fn("f0", {"a": k}), "None default": fn("f1", {"b": k}), "method None default": fn("K.m1", {"b": k}),
             "return": fn("f0", {}, k), "yield": fn("f0", {}, None, k), "yield+return": fn("f0", {}, STR, k),
+            "return, no parameters": fn("z0", {}, k), "yield, no parameters": fn("z0", {}, None, k),
             "return of generator": fn("f0", {}, k, STR),
             "under Optional": fn("f0", {"a": U(k, NONE)}), "under DefaultDict": fn("f0", {"a": DD(STR, k)}),
             "under List": fn("f0", {"a": L(k)}), "under Dict, wrapped": fn(LONG, {"second_parameter": D(STR, k)}),
